@@ -341,3 +341,162 @@ def run_numjac(task):
     finally:
         Config.config.clear()
         Config.config.update(defaults)
+
+
+def run_c01(task):
+    """analysis() under an alarm; exact evaluation of the analytic update expressions with every
+    propagator symbol bound to an independent rational; numerical probe of the flow property."""
+    import random
+    import signal
+    import sympy
+    import odetoolbox
+    from odetoolbox.config import Config
+    from odetoolbox.shapes import Shape
+    from . import impl_worker
+    defaults = dict(Config.config)
+    out = {"outcome": "Ok"}
+    if hasattr(odetoolbox, "_verif_trace"):
+        del odetoolbox._verif_trace[:]
+
+    def handler(signum, frame):
+        raise _Alarm()
+    old = signal.signal(signal.SIGALRM, handler)
+    signal.alarm(int(task.get("api_timeout", 25)))
+    try:
+        try:
+            res = odetoolbox.analysis(task["indict"], disable_stiffness_check=True, **task.get("flags", {}))
+            signal.alarm(0)
+            out["api"] = "Ok"
+        except _Alarm:
+            out["api"] = "Timeout"
+            res = None
+        except BaseException as e:   # noqa
+            signal.alarm(0)
+            if isinstance(e, KeyboardInterrupt):
+                raise
+            out["api"] = impl_worker.classify_exception(e)
+            out["detail"] = str(e)[:300]
+            res = None
+        finally:
+            signal.alarm(0)
+            signal.signal(signal.SIGALRM, old)
+        tr = getattr(odetoolbox, "_verif_trace", [])
+        if tr:
+            out["trace"] = {"x": tr[-1]["x"], "verdict": tr[-1]["verdict"]}
+        if res is None:
+            return out
+        out["solvers"] = [{"solver": s["solver"], "state_variables": s["state_variables"]} for s in res]
+        ana = [s for s in res if s["solver"] == "analytical"]
+        if not ana:
+            return out
+        ana = ana[0]
+        rng = random.Random(task.get("pseed", 1))
+        subs = {sympy.Symbol(k): _rat(v) for k, v in task["point"].items()}
+        hval = Fraction(rng.randint(1, 9), rng.choice([2, 3, 5, 7]))
+        subs[sympy.Symbol("__h")] = _rat(hval)
+        pvals = {}
+        for key in sorted(ana["propagators"]):
+            pvals[key] = Fraction(rng.randint(-9, 9) or 4, rng.choice([2, 3, 5, 7, 11]))
+            subs[sympy.Symbol(key)] = _rat(pvals[key])
+        out["h"] = str(hval)
+        out["pvals"] = {k: str(v) for k, v in pvals.items()}
+        out["analytic_vars"] = ana["state_variables"]
+        out["upd"] = [exact_eval(ana["update_expressions"][v], subs) for v in ana["state_variables"]]
+        out["update_expressions"] = ana["update_expressions"]
+        out["propagators"] = ana["propagators"]
+        inexact = False
+        for v in ana["state_variables"]:
+            ex = sympy.parsing.sympy_parser.parse_expr(ana["update_expressions"][v], global_dict=Shape._sympy_globals)
+            for fl in ex.atoms(sympy.Float):
+                if float(fl).as_integer_ratio()[1] > 2 ** 30:
+                    inexact = True
+        out["inexact_floats"] = inexact
+        if task.get("probe", True):
+            try:
+                out["probe"] = _flow_probe(task["indict"], ana, task.get("pseed", 1))
+            except Exception as e:   # noqa
+                out["probe"] = {"error": "%s: %s" % (type(e).__name__, str(e)[:300])}
+        return out
+    finally:
+        Config.config.clear()
+        Config.config.update(defaults)
+
+
+def _flow_probe(indict, ana, seed):
+    """The property itself, numerically at 40 digits: new state = expm([[M, c],[0,0]] h) [x;1] where
+    M, c come from differentiating the USER's equations; also identity at h = 0 and the two-step law."""
+    import random
+    import mpmath
+    import sympy
+    mpmath.mp.dps = 40
+    ns = {"Symbol": sympy.Symbol, "Integer": sympy.Integer, "Float": sympy.Float, "Rational": sympy.Rational, "exp": sympy.exp, "E": sympy.E, "e": sympy.E}
+    marker = "__d"
+    av = ana["state_variables"]
+    f = {}
+    for d in indict["dynamics"]:
+        lhs, rhs = d["expression"].split("=")
+        lhs = lhs.strip()
+        order = lhs.count("'")
+        nm = lhs.replace("'", "")
+        if order == 0:
+            continue
+        for k in range(order - 1):
+            f[nm + marker * k] = sympy.Symbol(nm + marker * (k + 1))
+        f[nm + marker * (order - 1)] = sympy.parsing.sympy_parser.parse_expr(rhs.replace("'", marker), global_dict=dict(ns))
+    if any(v not in f for v in av):
+        return {"skipped": "function-of-time entries"}
+    xs = [sympy.Symbol(v) for v in av]
+    M = sympy.Matrix([[sympy.diff(f[v], y) for y in xs] for v in av])
+    c = sympy.Matrix([sympy.expand(f[v] - sum(M[i, j] * xs[j] for j in range(len(av)))) for i, v in enumerate(av)])
+    free = set()
+    for e in list(M) + list(c):
+        free |= e.free_symbols
+    rng = random.Random(seed)
+    worst = 0.0
+    detail = None
+    props = {k: sympy.parsing.sympy_parser.parse_expr(v, global_dict=dict(ns)) for k, v in ana["propagators"].items()}
+    upd = {k: sympy.parsing.sympy_parser.parse_expr(v, global_dict=dict(ns)) for k, v in ana["update_expressions"].items()}
+    hs = sympy.Symbol("__h")
+
+    def step(xv, hv, pv):
+        sub = dict(pv)
+        sub[hs] = hv
+        pnum = {sympy.Symbol(k): e.evalf(40, subs=sub) for k, e in props.items()}
+        sub2 = dict(pv)
+        sub2.update(pnum)
+        sub2[hs] = hv
+        sub2.update({xs[i]: xv[i] for i in range(len(av))})
+        return [upd[v].evalf(40, subs=sub2) for v in av]
+
+    for trial in range(3):
+        pv = {s: sympy.Float(rng.uniform(0.6, 2.5), 40) for s in free if s not in xs}
+        xv = [sympy.Float(rng.uniform(-2, 2), 40) for _ in av]
+        Mn = mpmath.matrix([[mpmath.mpf(str(M[i, j].evalf(40, subs=pv))) for j in range(len(av))] + [mpmath.mpf(str(c[i].evalf(40, subs=pv)))] for i in range(len(av))] + [[0] * (len(av) + 1)])
+        for hv in (0.0, 0.37, 1.3):
+            got = step(xv, sympy.Float(hv, 40), pv)
+            E = mpmath.expm(Mn * mpmath.mpf(hv))
+            vec = mpmath.matrix([mpmath.mpf(str(v)) for v in xv] + [1])
+            exp = E * vec
+            for i in range(len(av)):
+                try:
+                    gre, gim = got[i].as_real_imag()
+                    if abs(float(gim)) > 1e-25 * (1 + abs(float(gre))):
+                        raise ValueError("complex")
+                    g = mpmath.mpf(str(gre))
+                except Exception:
+                    return {"worst": 1.0, "detail": "update of %s is not a real number at h=%s: %s" % (av[i], hv, got[i])}
+                err = abs(g - exp[i]) / (1 + abs(exp[i]))
+                if err > worst:
+                    worst = float(err)
+                    detail = "h=%s variable %s: update gives %s, exact flow %s (params %s, state %s)" % (hv, av[i], mpmath.nstr(g, 15), mpmath.nstr(exp[i], 15), {str(k): float(v) for k, v in pv.items()}, [float(v) for v in xv])
+        # two-step law on the toolbox's own expressions
+        a = step(xv, sympy.Float(0.4, 40), pv)
+        b2 = step(a, sympy.Float(0.9, 40), pv)
+        c2 = step(xv, sympy.Float(1.3, 40), pv)
+        for i in range(len(av)):
+            b2r, c2r = mpmath.mpf(str(b2[i].as_real_imag()[0])), mpmath.mpf(str(c2[i].as_real_imag()[0]))
+            err = abs(b2r - c2r) / (1 + abs(c2r))
+            if err > worst:
+                worst = float(err)
+                detail = "two-step law violated for %s: step(0.4) then step(0.9) = %s, step(1.3) = %s" % (av[i], b2[i], c2[i])
+    return {"worst": worst, "detail": detail}
